@@ -37,6 +37,16 @@ def arrays(b, n):
 
 def run(ctx):
     P = 'C12'
+    seipdv2(ctx, P)
+    skesk(ctx, P)
+    s2k(ctx, P)
+    mdc(ctx, P)
+    ecdh(ctx, P)
+    from rules import c03
+    c03.chunk_nonce(ctx, P)
+
+
+def seipdv2(ctx, P):
     # -- SEIPDv2 HKDF info ------------------------------------------------------------------------------------
     b = ctx.body('crypto::aead::aead_setup_rfc9580')
     if b is not None:
@@ -58,6 +68,9 @@ def run(ctx):
     for u in users:
         if 'encryptor' not in u and 'decryptor' not in u:
             ctx.functions.discard(u)
+
+
+def skesk(ctx, P):
     # -- SKESK v5 / v6 info, both directions ------------------------------------------------------------------
     tabs = {}
     for path in ('packet::sym_key_encrypted_session_key::SymKeyEncryptedSessionKey::decrypt', 'packet::sym_key_encrypted_session_key::SymKeyEncryptedSessionKey::encrypt_v6'):
@@ -68,6 +81,9 @@ def run(ctx):
         tabs[path.split('::')[-1]] = sorted(set((el[1],) + tuple('encode' in str(el[0]) and 1 or 0 for _ in [0]) for i, el in arrs if isinstance(el[1], int)))
     ctx.check(P + ':skesk:info-versions', 'R-sib', 'SKESK info / AD arrays are (packet type, version, cipher, mode): version octets 5 and 6 on the decrypt side, 6 on the v6 encrypt side',
               tabs.get('decrypt') == [(5, 1), (6, 1)] and tabs.get('encrypt_v6') == [(6, 1)], table={k: [list(x) for x in v] for k, v in tabs.items()})
+
+
+def s2k(ctx, P):
     # -- S2K ---------------------------------------------------------------------------------------------------
     cands = [p for p in ctx.f.bodies if p.endswith('derive_key::decode_count')]
     b = ctx.body(cands[0]) if cands else None
@@ -117,6 +133,9 @@ def run(ctx):
                             if has_origin(src, r'op:Add') and has_origin(src, r'call:.*::len$') and not has_origin(src, r'call:.*decode_count$'):
                                 clamp = True
         ctx.check(P + ':s2k:count-at-least-one-pass', 'R-dom', 'iterated S2K raises the decoded count to salt.len() + passphrase.len() when it is smaller (one full pass is always hashed)', clamp, function=b.path)
+
+
+def mdc(ctx, P):
     # -- MDC trailer octets on both sides ---------------------------------------------------------------------------
     dec = ctx.body('crypto::sym::decryptor::StreamDecryptorInner::<M, R>::finalize_data')
     enc = [p for p in ctx.f.bodies if 'crypto::sym::encryptor' in p]
@@ -144,6 +163,9 @@ def run(ctx):
     for p in enc:
         ctx.functions.discard(p) if not ({0xD3, 0x14} <= u8consts(ctx.wrap(ctx.f.bodies[p]))) else None
     ctx.check(P + ':seipdv1:mdc-octets', 'R-sib', 'the MDC trailer header is 0xD3 0x14 on the decrypt side (compared) and on the encrypt side (written)', dec_ok and enc_ok)
+
+
+def ecdh(ctx, P):
     # -- ECDH KDF ---------------------------------------------------------------------------------------------------
     b = ctx.body('crypto::ecdh::kdf')
     if b is not None:
